@@ -579,6 +579,18 @@ def jolt_sliver(P, Pq, quantities, L2):
     for f in _solved_triangles(P):
         n2, lsq = _tri_n2_lsq(Pq, *f)
         if 0 < n2 <= EREL * lsq * lsq:
+            if len(P) == 3:
+                # the recorded behaviour is exactly "the best point of the three edges": anything else (e.g. an edge
+                # left out of the comparison) is not this finding
+                def seg_min2(u, w):
+                    e = vsub(w, u)
+                    ee = vdot(e, e)
+                    t = Fr(0) if ee == 0 else max(Fr(0), min(Fr(1), -vdot(u, e) / ee))
+                    x = [u[c] + t * e[c] for c in range(3)]
+                    return vdot(x, x)
+                best = min(seg_min2(Pq[i], Pq[j]) for i, j in ((0, 1), (0, 2), (1, 2)))
+                if not sqrt_close(a, best, Fr(1, 10 ** 18) * L2):
+                    return None
             return ("sliver: triangle %d%d%d has 0 < |n|^2 = %.3g <= EPS_REL * Lsq^2 = %.3g (edge fallback), violation <= "
                     "2*sqrt(EPS_REL)*Lmax = %.3g" % (f + (float(n2), float(EREL * lsq * lsq), 2 * fsqrt(EREL * L2))))
     return None
@@ -650,6 +662,13 @@ def classify(solver, P, Pq, what, qty, L2):
         sl = jolt_sliver(P, Pq, qty, L2)
         if sl:
             return F_JOLT_SLIVER, sl
+        if len(P) == 3:
+            # a triangle inside the degeneracy band is answered by the edge fallback, whose result (the best point of
+            # three segments) is well conditioned: ill-conditioning of the FACE solve is no explanation there
+            gj, _ = _mods()
+            n2, lsq = _tri_n2_lsq(Pq, 0, 1, 2)
+            if n2 <= min(Fr(float(gj.EPSILON)), PIN_JOLT_EPS_REL) * lsq * lsq:
+                return None, None
     ill = illcond(Pq, qty, L2)
     if ill:
         return (F_JOLT_ILL if solver == "jolt" else F_ORIG_ILL), ill
@@ -790,6 +809,33 @@ def rand_rotation(nprs):
     if np.linalg.det(q) < 0:
         q[:, 0] = -q[:, 0]
     return q
+
+
+def sliver_case(rng, nprs):
+    """a sliver triangle (long edge b-c, apex a near that line) in a random vertex order, rotated, with the origin placed
+    relative to it: beyond the long edge, beyond the apex, next to a vertex, above the plane"""
+    L = 10 ** rng.uniform(-2, 2)
+    t = rng.uniform(0.05, 0.95)
+    alt = L * 1.5e-8 * rng.choice([0.0, 0.1, 0.5, 0.9, 1.1, 3.0, 10.0])
+    tri = np.array([[t * L, alt, 0.0], [0.0, 0.0, 0.0], [L, 0.0, 0.0]])          # apex, b, c
+    where = rng.choice(["beyond-long-edge", "beyond-apex", "off-end", "above", "generic"])
+    x = rng.uniform(-0.3, 1.3) * L
+    d = L * 10 ** rng.uniform(-6, 0)
+    if where == "beyond-long-edge":
+        o = np.array([x, -d, 0.0])
+    elif where == "beyond-apex":
+        o = np.array([x, alt + d, 0.0])
+    elif where == "off-end":
+        o = np.array([rng.choice([-d, L + d]), rng.uniform(-1, 1) * d, 0.0])
+    elif where == "above":
+        o = np.array([x, rng.uniform(-1, 1) * alt, d])
+    else:
+        o = np.array([rng.uniform(-1, 2) * L, rng.uniform(-1, 1) * L, rng.uniform(-1, 1) * L])
+    tri = tri - o
+    order = list(range(3))
+    rng.shuffle(order)
+    R = rand_rotation(nprs)
+    return [[float(v) for v in R.dot(tri[i])] for i in order]
 
 
 def general_case(rng, nprs, k=None, inside=None):
@@ -1380,6 +1426,12 @@ def search(ctx):
             ctx.notes.append("search: near-duplicate stream stopped by the time cap")
             break
     nprs = np.random.RandomState(ctx.rng.randrange(2 ** 32))
+    # sliver stream: triangles around the relative degeneracy threshold of closest_point_triangle (altitude 0.1 … 10
+    # times sqrt(EPSILON) * longest edge, and exactly collinear ones), every vertex order, the origin in every region
+    # of the long edge and the apex — the edge fallback must still consider all three edges
+    for i in range(ctx.budget(1500, 20000) * boost):
+        P = sliver_case(ctx.rng, nprs)
+        run_oracles(ctx, P, "S")
     ng = ctx.budget(16000, 200000) * boost
     for i in range(ng):
         P, meta = general_case(ctx.rng, nprs, inside=(True if i % 8 == 0 else None), k=(4 if i % 8 == 0 else None))
